@@ -539,7 +539,14 @@ func settingLinesTrimRule(p *Prog, r *Report, id string) {
 		return
 	}
 	n := 0
-	allInstrs(sf, true, func(in ssa.Instruction) {
+	var region []*ssa.Function
+	for _, rf := range p.Region("config/parse.SettingLines") {
+		if hf := p.SSAFunc(rf); hf != nil {
+			region = append(region, hf)
+		}
+	}
+	_ = sf
+	forAllInstrs(region, func(in ssa.Instruction) {
 		c, ok := in.(*ssa.Call)
 		if !ok {
 			return
